@@ -417,6 +417,15 @@ def differential(opname, fn, self, args, frame):
         for e in direct:
             M.templates.setdefault(op_key(opname, e['ordinal']), e['text'] if isinstance(e['text'], str) else repr(e['text']))
         return
+    # the statements exactly as the driver received them are always judged (a twin run substitutes distinct benign
+    # values and may therefore take another branch of the operation, e.g. when two arguments were equal)
+    def _plain(v):
+        return not isinstance(v, str) or all(ch.isalnum() or ch in '_-:./ ' for ch in v)
+    if all(_plain(v) for _, _, v in slots):
+        # (with hostile values in a data position the as-issued text of a splicing operation is malformed as a mere
+        # consequence of the splice, which clause (f) reports under its own key)
+        M.ctx.count('as-issued-statements-judged', len(direct))
+        judge_wellformed(opname, self, args, direct, 'as issued')
     benign = {path: f'bv{i}' for i, (_, path, _) in enumerate(slots)}
     r0, err0 = run_twin(opname, fn, self, args, frame, benign)
     if len(r0) != len(direct):
@@ -787,6 +796,12 @@ def drive_generic(env, g, b, h):
     call(g, 'get_nodes_on_shortest_path', node_a=b['server'], node_z=pick_id(env, allids), rel=A.REL_HAS)
     call(g, 'get_nodes_on_path_with_hops', node_a=b['server'], node_z=b['switch'], hops=[b['parent_cp']])
     call(g, 'get_nodes_on_path_with_hops', node_a=b['server'], node_z=pick_id(env, allids), hops=[], cut_off=rng.randint(1, 50))
+    # the same element named twice: an unusual but legal argument combination for every two-element operation
+    same = pick_id(env, allids)
+    call(g, 'get_nodes_on_shortest_path', node_a=same, node_z=same)
+    call(g, 'get_nodes_on_shortest_path', node_a=same, node_z=same, rel=A.REL_CONNECTS)
+    call(g, 'get_nodes_on_path_with_hops', node_a=same, node_z=same, hops=[same])
+    call(g, 'get_link_properties', node_a=same, node_b=same)
     # composite readers
     call(g, 'build_deep_node_sliver', node_id=b['server'])
     call(g, 'build_deep_node_sliver', node_id=b['switch'])
